@@ -849,6 +849,37 @@ def alias_two_scalars(spec, rng):
     return set_at(out, second, ['alias', 'sc'])
 
 
+def respell_ints(spec, rng, p=0.6):
+    """The same tree with plain decimal int scalar *values* (not keys)
+    written in another spelling PyYAML reads as the same number: leading
+    zero (octal), 0x, 0b, underscores, sexagesimal, explicit plus.  Returns
+    the new spec, or None if there was nothing to respell."""
+    import re
+    out = spec
+    done = 0
+    for path, sub in paths(spec):
+        if not path or path[-1][0] == 'k' or sub[0] != 's':
+            continue
+        if sub[1] != 'tag:yaml.org,2002:int' or not re.fullmatch(
+                r'-?[0-9]+', str(sub[2])) or rng.random() > p:
+            continue
+        v = int(sub[2])
+        a = abs(v)
+        forms = ['0x%X' % a, '0b' + bin(a)[2:], '+%d' % a if v >= 0 else None,
+                 ('0%o' % a) if a else '00',
+                 ('%d_%s' % (a // 10, a % 10)) if a >= 10 else '%d_' % a,
+                 ('%d:%02d' % (a // 60, a % 60)) if a >= 60 else None]
+        forms = [f for f in forms if f]
+        text = rng.choice(forms)
+        if v < 0 and not text.startswith('+'):
+            text = '-' + text
+        elif v < 0:
+            continue
+        out = set_at(out, path, ['s', sub[1], text] + list(sub[3:]))
+        done += 1
+    return out if done else None
+
+
 # ---------------------------------------------------------------------------
 # text-level hostile inputs
 
